@@ -81,7 +81,7 @@ TAGS = {"int": "IntegerParameterType", "float": "FloatParameterType", "enum": "E
 
 def enum_raw_text(tv):
     if tv["t"] == "int":
-        return str(tv["n"])
+        return str(tv["n"] + tv.get("shift", 0))
     if tv["t"] == "flt":
         return fnum(tv)
     return tv["s"]
